@@ -1323,7 +1323,7 @@ STD_EXC_BASE = {
  '_ZTISt8bad_cast': '_ZTISt9exception', '_ZTISt17bad_function_call': '_ZTISt9exception',
  '_ZTISt20bad_array_new_length': '_ZTISt9bad_alloc', '_ZTISt9exception': None,
  '_ZTINSt8ios_base7failureB5cxx11E': '_ZTISt12system_error', '_ZTISt12system_error': '_ZTISt13runtime_error',
- '_ZTISt18bad_variant_access': '_ZTISt9exception', '_ZTISt19bad_optional_access': '_ZTISt9exception',
+ '_ZTINSt10filesystem7__cxx1116filesystem_errorE': '_ZTISt12system_error', '_ZTISt18bad_variant_access': '_ZTISt9exception', '_ZTISt19bad_optional_access': '_ZTISt9exception',
 }
 
 def emit_typeinfo(E):
